@@ -175,6 +175,95 @@ func vC03Labels(r *rand.Rand) [][]byte {
 	return ls
 }
 
+// a well-formed name whose PRESENTATION form (what the decoder prints) is exactly L characters long: labels
+// over all byte values (an escaped special costs 2 characters, a non-printable octet 4), the tail filled
+// with letters.  Used to walk the preimage length across the sizes the key functions treat specially (the
+// pooled 256-byte buffer of Key / KeyWithPrefix, the wire hasher's 192-byte chunk).
+func vC03LabelsOfPresLen(r *rand.Rand, L int) [][]byte {
+	cost := func(b byte) int {
+		switch {
+		case isPresentationSpecial(b):
+			return 2
+		case b < ' ' || b > '~':
+			return 4
+		}
+		return 1
+	}
+	letter := func() byte { return byte("abcdefghijklmnopqrstuvwxyzABCDEFGHIJKLMNOPQRSTUVWXYZ"[r.Intn(52)]) }
+	for try := 0; try < 200; try++ {
+		var labels [][]byte
+		cur, wire := 0, 1
+		ok := true
+		plain := try >= 100 || r.Intn(3) == 0 // letters only (254 characters = 255 octets at most)
+		for cur < L {
+			rem := L - cur
+			if rem < 2 {
+				ok = false
+				break
+			}
+			var l []byte
+			used := 1 // the dot
+			max := 1 + r.Intn(63)
+			for len(l) < max && used < rem {
+				b := vC03Byte(r)
+				if plain || used+cost(b) > rem {
+					b = letter()
+				}
+				l = append(l, b)
+				used += cost(b)
+			}
+			if rem-used == 1 { // a single character cannot be a label plus its dot
+				if len(l) < 63 {
+					l = append(l, letter())
+					used++
+				} else {
+					ok = false
+					break
+				}
+			}
+			labels = append(labels, l)
+			cur += used
+			wire += 1 + len(l)
+		}
+		if !ok || cur != L || wire > 255 {
+			continue
+		}
+		if s, _, err := dns.UnpackDomainName(vC03Wire(labels), 0); err == nil && len(s) == L {
+			return labels
+		}
+	}
+	return nil
+}
+
+type vC03LenPlan struct {
+	total  int // length of the whole preimage: 5 header octets + name + scope tail
+	prefix netip.Prefix
+}
+
+// preimage lengths on both sides of 192 (the wire hasher's chunk) and 256 (the pooled buffer of the
+// presentation-side functions), each with no scope, a v4 and a v6 scope in turn (all three in the thorough tier)
+func vC03LenPlans(seed int64, thorough bool) []vC03LenPlan {
+	prefixes := []netip.Prefix{{}, netip.MustParsePrefix("198.51.0.0/16"), netip.MustParsePrefix("2001:db8:12:3400::/56")}
+	var totals []int
+	for t := 190; t <= 194; t++ {
+		totals = append(totals, t)
+	}
+	for t := 249; t <= 264; t++ {
+		totals = append(totals, t)
+	}
+	var out []vC03LenPlan
+	for _, t := range totals {
+		if thorough {
+			for _, p := range prefixes {
+				out = append(out, vC03LenPlan{t, p})
+			}
+		} else {
+			out = append(out, vC03LenPlan{t, prefixes[(t+int(seed))%3]})
+		}
+	}
+	return out
+}
+
 // malformed or unusual wires
 func vC03Mangle(r *rand.Rand, w []byte) ([]byte, string) {
 	w = append([]byte(nil), w...)
@@ -416,8 +505,9 @@ func TestVerifC03Keys(t *testing.T) {
 	seed := int64(vC03EnvInt("VERIF_SEED", 1))
 	n := vC03EnvInt("VERIF_N", 1200)
 	r := rand.New(rand.NewSource(seed))
+	plans := vC03LenPlans(seed, os.Getenv("VERIF_TIER") == "thorough")
 
-	for c := 0; c < n; c++ {
+	for c := 0; c < n+len(plans); c++ {
 		labels := vC03Labels(r)
 		w := vC03Wire(labels)
 		kind := "wf"
@@ -428,6 +518,19 @@ func TestVerifC03Keys(t *testing.T) {
 		qclass := vC03Classes[r.Intn(len(vC03Classes))]
 		cd := r.Intn(2) == 0
 		prefix := vC03Prefix(r)
+		if c < len(plans) {
+			// the name's printed length chosen so that the whole preimage has the planned length
+			pl := plans[c]
+			tail := 0
+			if pl.prefix.IsValid() {
+				tail = 2 + (pl.prefix.Bits()+7)/8
+			}
+			ls := vC03LabelsOfPresLen(r, pl.total-5-tail)
+			if ls == nil {
+				continue
+			}
+			labels, w, kind, prefix = ls, vC03Wire(ls), "wf-len", pl.prefix
+		}
 
 		// presentation form as the library prints it; only when w is the plain uncompressed encoding of it
 		pres, presOK := "", false
@@ -541,7 +644,11 @@ func TestVerifC03Keys(t *testing.T) {
 		// --- Key over arbitrary presentation strings (not necessarily what Unpack prints)
 		if c%4 == 0 {
 			var name string
-			switch r.Intn(4) {
+			pick := r.Intn(4)
+			if kind == "wf-len" {
+				pick = 0
+			}
+			switch pick {
 			case 0:
 				name = pres
 			case 1: // raw bytes, no escaping
@@ -571,7 +678,7 @@ func TestVerifC03Keys(t *testing.T) {
 		}
 
 		// --- WireNameEqualsPresentation
-		if c%2 == 0 {
+		if c%2 == 0 && kind != "wf-len" {
 			var cands []string
 			if presOK {
 				cands = append(cands, pres, vC03MixCase(r, pres), strings.ToUpper(pres), strings.ToLower(pres))
